@@ -77,7 +77,9 @@ func jsonExec1(line string) (out string, fails []common.Failure) {
 	switch f[1] {
 	case "lookup":
 		field, tagv, raw := common.Unhex(f[2]), common.Unhex(f[3]), common.Unhex(f[4])
-		j, _ := tags.LookupJSON(types.Member{Name: field, Tags: raw})
+		// the other fields of the member are what the parser may have set: the answer is about name and tag alone
+		j, _ := tags.LookupJSON(types.Member{Name: field, Tags: raw, Embedded: (len(field)+len(raw))%2 == 1,
+			CommentLines: []string{"json:\"-\""}, Type: types.String})
 		out = showJSON(j)
 		namePart := tagv
 		opts := ""
